@@ -854,9 +854,33 @@ fn gen_main(seed: u64, count: usize, kinds: &str, maxn: usize) {
         let (ops, shape) = gen_ops(&mut rng, maxn, !has("run") && !has("stream"));
         let n = ops.iter().filter(|x| matches!(x, Op::Fn { .. })).count();
         let alt = if has("eq") { Some(perturb(&mut rng, &ops)) } else { None };
-        let fails: Vec<usize> = (0..n).filter(|_| rng.chance(15)).collect();
+        let mut fails: Vec<usize> = (0..n).filter(|_| rng.chance(15)).collect();
         let mut sessions = vec![];
         let hist = has("hist");
+        // `memo` histories (own kind, so that the other kinds' random streams are unchanged): the FIRST
+        // run on the value is a concurrent one under a random completion schedule, the later ones are
+        // sequential runs in the same direction — whatever a run leaves behind on the value (hand-out
+        // order, ready sets, counters) must not show in a later run, which the model starts afresh
+        if has("memo") {
+            fails.clear();
+            let with = rng.chance(50);
+            let rev = with && rng.chance(40);
+            let first = (*rng.pick(&["for_each_concurrent", "try_for_each_concurrent", "try_for_each_concurrent_control", "for_each_concurrent_mut"])).to_string();
+            let first = if with { format!("{}_with", first) } else { first };
+            let limit = *rng.pick(&[None, None, None, Some(2), Some(3), Some(64)]);
+            sessions.push(Session { cfgs: vec![RunCfg { api: first, rev, limit, strat: Strat::Non, incl: true, ord: 0 }], coop: false, auto: 0, shared: false, late: false, chain: 0, script: None });
+            for _ in 0..1 + rng.below(2) {
+                let later = (*rng.pick(&["fold_async", "fold_async", "try_fold_async", "fold_async_mut", "try_fold_async_mut"])).to_string();
+                let later = if with { format!("{}_with", later) } else { later };
+                sessions.push(Session { cfgs: vec![RunCfg { api: later, rev, limit: None, strat: Strat::Non, incl: true, ord: 0 }], coop: false, auto: 0, shared: false, late: false, chain: 0, script: None });
+            }
+            let midpoll = false;
+            run_case(&mut out, &format!("g{}_{}", seed, c), &shape, &ops, alt, &fails, sessions, &mut rng, false, midpoll);
+            for l in out {
+                let _ = writeln!(lock, "{}", l);
+            }
+            continue;
+        }
         // histories: 2-4 runs; now and then several hundred short stream runs on one value (per-graph
         // counters of a few bits)
         let many_streams = hist && has("stream") && rng.chance(2);
